@@ -10,8 +10,9 @@ import common
 sys.path.insert(0, os.path.join(common.VERIF, "tx"))
 import canosched as tx
 
-KINDS = {"mps": ["random", "product", "add", "dup", "apply", "apply_add", "scaled", "recentred"],
-         "mpdm": ["random", "add", "apply", "dup"],
+KINDS = {"mps": ["random", "product", "add", "dup", "apply", "apply_add", "scaled", "recentred",
+                 "canon_sum_r", "canon_sum_l", "canon_diff_r", "canon_diff_l"],
+         "mpdm": ["random", "add", "apply", "dup", "canon_sum_r", "canon_sum_l"],
          "mpo": ["plain", "add", "product", "identity", "conj_trans"]}
 
 COQ_HDR = ("From Coq Require Import ZArith List Bool.\nImport ListNotations.\nFrom RV Require Import Gen.CanoSched.\n"
@@ -397,6 +398,7 @@ def run(ctx):
             "label_contract_calls_checked": stats.get("label_contract_calls", 0), "label_contract_failures": stats.get("label_contract_bad", 0),
             "qn_valid_checks (valid before => valid after)": stats.get("qn_valid_before", 0), "label_sweeps_compared_with_model": n_lab,
             "schedule_records_compared": n_sched, "distinct_schedule_calls": n_keys, "iter_switch_grid_points": n_iter,
+            "ensure_calls_returning_untouched (isometry still checked independently)": stats.get("ensure_untouched", 0),
             "malformed_entry_calls": stats.get("malformed", 0), "oracle_ops": stats.get("ops", 0), "isometry_site_checks": stats.get("iso_sites", 0),
             "max_dense_relerr": stats.get("max_dense_err"), "max_isometry_dev": stats.get("max_iso_dev"),
             "max_scaled_isometry_dev_mpo": stats.get("max_iso_dev_scaled"),
